@@ -22,7 +22,7 @@ ASSUMPTIONS = [
 
 MAXC = 2 ** 29
 FTS = ["gene", "exon", "CDS"]
-SEQIDS = ["chr1", "chr2", "X"]
+SEQIDS = ["chr1", "chr2", "X", "Chr1"]  # seqids are case-sensitive
 
 
 def _near_edge(p):
@@ -79,6 +79,7 @@ class QueriesLeg(object):
                 q["form"] = draw(st.sampled_from(["tuple", "string", "feature", "kw", "kw-noseqid", "kw-start-only", "kw-end-only",
                                                   "string-strand"]))
                 q["fstrand"] = draw(st.sampled_from(["+", "-", "."]))
+                q["widened"] = draw(st.booleans())
             else:
                 q["form"] = draw(st.sampled_from(["tuple", "string"]))
                 q["method"] = draw(st.sampled_from(["all_features", "features_of_type", "children", "parents"]))
@@ -227,6 +228,24 @@ class QueriesLeg(object):
             queries.append(q)
             if q.get("form") not in ("kw-start-only", "kw-end-only"):
                 queries.append(dict(q, within=not q["within"]))
+        # two region() generators consumed alternately do not disturb each other
+        if len(case["queries"]) >= 2:
+            qa, qb = case["queries"][0], case["queries"][1]
+            ga = db.region((qa["seqid"], qa["start"], qa["end"]), completely_within=qa["within"])
+            gb = db.region((qb["seqid"], qb["start"], qb["end"]), completely_within=qb["within"])
+            ia, ib = [], []
+            for _ in range(len(feats) + 1):
+                for gen, acc in ((ga, ia), (gb, ib)):
+                    try:
+                        acc.append(next(gen).id)
+                    except StopIteration:
+                        pass
+            for q_, got_ in ((qa, ia), (qb, ib)):
+                pred = within if q_["within"] else overlaps
+                want_ = sorted(f["id"] for f in feats if f["seqid"] == q_["seqid"] and pred(f, q_["start"], q_["end"]))
+                if sorted(got_) != want_:
+                    return Failure("two region() generators consumed alternately: %s:%d-%d gave %r, expected %r"
+                                   % (q_["seqid"], q_["start"], q_["end"], sorted(got_), want_), sig={"kind": "region-interleaved"})
         for phase in ("initial", "after-update"):
             bad = self._run_queries(case, db, feats, child, queries, ctx, phase)
             if bad is not None:
@@ -287,7 +306,13 @@ class QueriesLeg(object):
                     kw.pop("strand", None)
                     call = lambda: db.region("%s:%d-%d:%s" % (seqid, s, e, q["fstrand"]), **kw)
                 elif form == "feature":
-                    call = lambda: db.region(Feature(seqid=seqid, start=s, end=e, strand=q["fstrand"]), **kw)
+                    if q.get("widened"):
+                        # the Feature used as a region was built small and widened in place afterwards
+                        rf = Feature(seqid=seqid, start=s, end=s, strand=q["fstrand"])
+                        rf.end = e
+                        call = lambda: db.region(rf, **kw)
+                    else:
+                        call = lambda: db.region(Feature(seqid=seqid, start=s, end=e, strand=q["fstrand"]), **kw)
                 elif form == "kw":
                     call = lambda: db.region(seqid=seqid, start=s, end=e, **kw)
                 elif form == "kw-noseqid":
